@@ -9,10 +9,12 @@ import (
 	"strconv"
 	"strings"
 
+	"gosym/smt"
 	"gosym/symex"
 )
 
 func main() {
+	smt.DebugRange = os.Getenv("GOSYM_DEBUG_RANGE") != ""
 	if len(os.Args) < 2 {
 		fmt.Fprintln(os.Stderr, "usage: gosym run|check ...")
 		os.Exit(2)
